@@ -178,7 +178,9 @@ def text_violations(lang, toks, before=None, lig=True):
     for k in range(len(idx) - 1):
         i, j = idx[k], idx[k + 1]
         t1, t2 = toks[i], toks[j]
-        if lang == "fr" and k > 0 and toks[idx[k - 1]]["lier"]:
+        # the documented exemption: the word before is `lié` (hyphen-attached) — the code reads cList[i-1], which may be
+        # a token that a contraction emptied at this level (it still carries `lier`, detokenize still writes its hyphen)
+        if lang == "fr" and ((k > 0 and toks[idx[k - 1]]["lier"]) or (i > 0 and toks[i - 1]["lier"])):
             continue
         ws = words_of(t1["r"])
         ctx = None
